@@ -333,11 +333,13 @@ def stage_trace(ctx, st):
     n = st["n"][0] if ctx.tier == "quick" else st["n"][1]
     out = os.path.join(ctx.work, "trace-%s.ndjson" % st["name"])
     stats = os.path.join(ctx.work, "stats-%s.json" % st["name"])
-    args = [st.get("cmd", "gen"), "-profile", st["profile"], "-seed", str(ctx.seed + st.get("seed_off", 0)),
+    args = [st.get("cmd", "gen"), "-seed", str(ctx.seed + st.get("seed_off", 0)),
             "-n", str(n), "-backends", st.get("backends", "rotate"), "-out", out, "-stats", stats, "-par", "12"]
+    if st.get("cmd", "gen") == "gen":
+        args += ["-profile", st["profile"]]
     if "ops" in st:
         args += ["-ops", str(st["ops"])]
-    args += st.get("args", [])
+    args += [a.replace("{work}", ctx.work) for a in st.get("args", [])]
     msg = run_driver(ctx, args)
     ctx.log(msg.strip().splitlines()[-1] if msg.strip() else "driver done")
     traces = split_traces(out)
